@@ -312,7 +312,7 @@ func init() {
 			if tier == "thorough" {
 				return 40000
 			}
-			return 500
+			return 1500
 		},
 		Budget: func(tier string) time.Duration {
 			if tier == "thorough" {
